@@ -47,8 +47,9 @@ reg('C18', engine='llsym',
          'convert_to_object are run on the same symbolic memory; z3 proves element i of the result equals p[i] '
          '(or both raise the same exception) for all item bytes, any alignment field, every misalignment 0..7.',
     note='Trusted: clang IR, llsym semantics, CPython constructor contracts (PyLong_From*, PyFloat_FromDouble, '
-         'PyList_New, PyBytes_FromStringAndSize). Length bounded (2 quick / 4 thorough); wide-char, long double '
-         'and complex item types not covered.',
+         'PyList_New, PyBytes_FromStringAndSize, PyUnicode_*). Length bounded (2 quick / 8 thorough; 4 for wide characters); '
+         'char16_t/char32_t items are compared with the element-wise reads decoded as UTF-16/UTF-32; long double and complex '
+         'item types not covered.',
     technique='differential symbolic execution of LLVM IR, SMT (z3 bit-vectors + FP)')
 
 reg('C09', engine='pysym',
@@ -67,27 +68,30 @@ reg('C35', engine='pysym',
          'the code takes forks through z3 and the result is proved equal to an independent reference translation.',
     note='Trusted: pysym/SymStr proxy semantics (validated against CPython), the reference in harness/C35.py; '
          'pkg-config output modelled as its token list, subprocess.Popen stubbed. Bounds: <=2+1(2) tokens of <=3(4) '
-         'characters per package, 2 packages.',
+         'characters per package, 2 packages; package lists naming a package repeatedly (up to 4/5 entries).',
     technique='symbolic execution of the real Python functions via proxy strings, SMT (z3 bit-vectors)')
 
 reg('C30', engine='pysym + llsym',
     text='Python side: the real _process_macros/_add_integer_constant/_parse_constant/convert_pycparser_error run on '
          'symbolic strings (every ASCII string up to the bound), symbolic ints and symbolic line numbers through '
          'proxy values with solver-guided forking; any path ending in an exception class other than the cffi ones is '
-         'a violation. C side: the real IR of parse_c_type.c on every byte string up to the bound with a bounds '
-         'monitor on the input and output buffers.',
+         'a violation; Parser._declare on every declared identifier up to 13/14 characters. C side: the real IR of '
+         'parse_c_type.c on every byte string up to the bound with a bounds monitor on the input and output buffers, and '
+         '_ffi_type on a str object of up to 3/4 arbitrary BMP code points with PyUnicode_AsUTF8 following its contract.',
     note='Trusted: pysym/SymStr proxy semantics incl. the model of int() and the regex NFA (validated against '
          'CPython on each change), llsym semantics. Not covered: exceptions raised inside pycparser itself, '
          'non-ASCII text, longer inputs.',
     technique='symbolic execution via proxy values (Python) and of LLVM IR (C), SMT (z3)')
 
-reg('C25', engine='llsym',
+reg('C25', engine='llsym+pysym',
     text='Bounded symbolic execution of the real search_sorted on a symbolic sorted table (names of symbolic '
          'content and length) and a symbolic search string: found index <=> exact equality, -1 <=> no entry equal, '
-         'no read outside the strings, for all tables/strings within the bounds.',
-    note='Trusted: clang IR, llsym semantics, strncmp contract. Precondition: table sorted in byte order (the '
-         'generator\'s sort is not re-verified). Bounds: <=4 (7) entries, names <=3 (4) bytes.',
-    technique='symbolic execution of LLVM IR, SMT (z3 bit-vectors)')
+         'no read outside the strings, for all tables/strings within the bounds. The precondition (tables strictly '
+         'increasing in byte order) is decided on the generator: the real Recompiler.collect_type_table / collect_step_tables '
+         'run on declarations whose identifier names are symbolic strings, with and without the implicit FILE, C and Python targets.',
+    note='Trusted: clang IR, llsym/pysym semantics, strncmp contract. Bounds: <=4 (9) entries, names <=3 (5) bytes; generator: two '
+         'typedefs, one struct, one function of the listed name lengths.',
+    technique='symbolic execution of LLVM IR and of the real Python generator via proxy strings, SMT (z3 bit-vectors)')
 
 reg('C16', engine='llsym',
     text='Bounded symbolic execution of the real indexing, slicing, slice-assignment and pointer-arithmetic kernels '
@@ -154,7 +158,7 @@ reg('C10', engine='pysym + llsym',
          'size/sign (taken from the compiler) not covered.',
     technique='symbolic execution via proxy values (Python) and of LLVM IR (C), SMT (z3)')
 
-reg('C33', engine='llsym',
+reg('C33', engine='llsym+pysym',
     text='Differential symbolic execution of the two builds of the same (cdef, C source), both generated at run time by the '
          'working tree and compiled to IR: the verify() CPython engine\'s wrappers and constant functions (vengine_cpy, with its '
          'own conversion macros) against the set_source() ones (Recompiler, _cffi_include.h) over the same backend IR -- same '
@@ -169,7 +173,7 @@ reg('C33', engine='llsym',
     technique='differential symbolic execution of LLVM IR of two generated modules and of Python via proxy values, SMT (z3), '
               'counterexamples replayed by building all three artefacts with the real tool chain')
 
-reg('C34', engine='llsym',
+reg('C34', engine='llsym+pysym',
     text='Bounded symbolic execution of the real delegation code behind ffi.include(): _realize_c_struct_or_union / '
          '_fetch_external_struct_or_union, ffi_fetch_int_constant and lib_build_and_cache_attr over include graphs of up to 4 '
          'FFI/Lib objects whose tables have symbolic names and flags, under the representation invariant that Parser.include '
@@ -211,10 +215,10 @@ reg('C20', engine='llsym',
     text='Bounded symbolic execution of the real ffi.new path: the size arithmetic (add_varsize_length, ffi.new("T[]", n)) '
          'accepts exactly the sizes that fit Py_ssize_t and never records a wrapped value; fresh memory is zero; '
          'ffi.new(T, init) succeeds iff ffi.new(T) + assignment does and leaves the same bytes, for list initializers, a '
-         'struct ending in a flexible array and a nested var-sized struct given as cdata; dict initializers set exactly the named '
+         'struct and a union ending in a flexible array and a nested var-sized struct given as cdata; dict initializers set exactly the named '
          'fields (unknown key: KeyError), sequences fill leading fields in order, a union sequence sets its first member only, the rest stays zero.',
     note='Trusted: clang IR, llsym semantics, calloc/malloc contracts, CPython contracts. Partial: small initializers, '
-         'two struct shapes; dict initializers, unions and custom allocators not covered.',
+         'four aggregate shapes; custom allocators not covered.',
     technique='symbolic execution of LLVM IR, SMT (z3 bit-vectors)')
 
 reg('C23', engine='pysym',
@@ -231,10 +235,12 @@ reg('C23', engine='pysym',
 reg('C24', engine='pysym',
     text='The real read_sources/exec_python/generate_c_source/write_c_source/find_ffi_in_python_script run on symbolic '
          'Unicode texts (cdef, prelude, module name, generated text, output argument, --ffi-var) with FFI replaced by '
-         'a recorder: the FFI receives exactly the inputs, exactly the emit_c_code text is written once to stdout iff '
-         'the output is "-", else to a file opened with encoding utf-8; name/type errors are the documented ones.',
-    note='Trusted: pysym/SymStr proxies; emit_c_code is uninterpreted (a fresh symbolic text); argparse, real files '
-         'and encodings are not covered.',
+         'a recorder whose emit_c_code is the real FFI.emit_c_code -> recompile -> make_c_source (only the Recompiler class '
+         'writes an uninterpreted text): the FFI receives exactly the inputs, exactly the generated text reaches stdout -- and '
+         'nothing else, the generator\'s own print() included -- iff the output is "-", else a file opened with encoding '
+         'utf-8; io.StringIO newline modes are modelled; name/type errors are the documented ones.',
+    note='Trusted: pysym/SymStr proxies; the text generator proper is uninterpreted (a fresh symbolic text); argparse and real '
+         'files are covered by the tool replay only.',
     technique='symbolic execution of the real Python functions via proxy strings, SMT (z3)')
 
 reg('C32', engine='pysym',
@@ -250,7 +256,8 @@ reg('C26', engine='pysym + llsym',
          'thread while the shared per-tag state is moved, at every yield point, to any state the rely condition allows '
          '(solver-forked); the thread\'s own writes are proved to be rely steps (guarantee), so the per-thread obligations '
          '(f only under the tag lock and never after a completion, result returned == published, exception propagates and '
-         'caches nothing, lock released on every path) hold for any number of threads and any schedule.',
+         'caches nothing, the tag entry and its lock are never removed, lock released on every path) hold for any number of '
+         'threads and any schedule.',
     note='Trusted: the rely condition printed in the evidence, atomicity of dict/lock primitives, lock fairness for '
          'termination. One tag; tags with re-entrant __eq__ not covered.',
     technique='rely/guarantee symbolic execution of one thread against a havocking environment, SMT-guided path forking (z3)')
@@ -261,7 +268,9 @@ reg('C11', engine='pysym + llsym',
          'proved inverse for every opcode the generator can emit; integer constants survive ffiobj_init -> '
          '_cdl_realize_global_int -> realize_global_int for every Python int in [-2**63, 2**64); the struct/union, field, enum and '
          'typename literals produced by the real encoder classes of recompiler.py (4-byte fields symbolic) are decoded by the real '
-         'ffiobj_init into exactly the same numbers, names and flags.',
+         'ffiobj_init into exactly the same numbers, names and flags; the name an aggregate gets in-line (cparser + model, '
+         're-compiled from source with lifted literals) equals the name the out-of-line module realizes, for every tag / typedef '
+         'alias of <=2 characters (known finding: tagged aggregate with a typedef alias).',
     note='Trusted: pysym/llsym semantics, CPython contracts. Whole-module equivalence (types, functions, globals through '
          'the import machinery) is NOT decided.',
     technique='symbolic execution via proxy values (Python AST) and of LLVM IR (C), SMT (z3 bit-vectors)')
